@@ -440,8 +440,21 @@ func applyEdit(r *Rand, doc M, kind int) string {
 	}
 	switch kind {
 	case 0, 1: // required property that is not defined
-		if n, d := plainDef(); d != nil {
+		// (on a definition that does not have one yet: listing a name twice in "required" is a schema error of its
+		// own, which stops the validation before the rule runs; several offending definitions are the interesting case)
+		for try := 0; try < 4; try++ {
+			n, d := plainDef()
+			if d == nil {
+				break
+			}
 			req, _ := d["required"].([]any)
+			dup := false
+			for _, q := range req {
+				dup = dup || q == "nope"+n
+			}
+			if dup {
+				continue
+			}
 			d["required"] = append(req, "nope"+n)
 			return "required-undefined:" + n
 		}
@@ -577,7 +590,7 @@ func applyEdit(r *Rand, doc M, kind int) string {
 			return "bad-example:" + n
 		}
 	case 16: // readOnly and required (warning)
-		if n, d := plainDef(); d != nil {
+		if n, d := plainDef(); d != nil && d["properties"].(M)["ro"+n] == nil {
 			d["properties"].(M)["ro"+n] = M{"type": "string", "readOnly": true}
 			req, _ := d["required"].([]any)
 			d["required"] = append(req, "ro"+n)
